@@ -61,6 +61,25 @@ class Report:
             self.analysed_fns.add(f if isinstance(f, str) else f.id)
 
 
+def borrow(ctx, prop, select):
+    """Run the rules of another property on the same facts and return those of its instances for which
+    select(rule_id, instance_key) holds: [(rule_id, instance dict)].  Used where a property rests on a clause that
+    another property's rules already decide (e.g. balanced logging presupposes that processing cannot abort)."""
+    sub = Ctx(prop.upper(), ctx.tier)
+    sub._facts = ctx._facts
+    sub.info = ctx.info
+    sub.default_config = ctx.default_config
+    mod = importlib.import_module('rules.' + prop.lower())
+    mod.run(sub)
+    out = []
+    for rid in sub.rep.order:
+        for inst in sub.rep.rules[rid]['instances']:
+            if select(rid, inst['key']):
+                out.append((rid, inst))
+    ctx.rep.analysed_fns |= sub.rep.analysed_fns
+    return out
+
+
 def load_known():
     try:
         with open(KNOWN) as fh:
